@@ -88,6 +88,9 @@ func init() {
 				}
 				p.RememberMode = 1
 				s = genForestScenario(c.Rng, tag, cfgs, fGenOpts{Profile: p, Rounds: 2 + c.Rng.Intn(3), Undo: true, ForceEmptyRootOverwrite: c.Index%4 == 0})
+				if c.Index%8 == 5 {
+					s.LeafMode = "readd"
+				}
 			}
 			c06Check(c, s)
 		},
